@@ -5,7 +5,9 @@ use rt::bb::Ev;
 use serde_json::Value;
 use std::collections::BTreeMap;
 
+pub mod dispatch;
 pub mod reply;
+pub mod wire;
 
 #[derive(Clone, Debug, PartialEq, serde::Serialize, serde::Deserialize)]
 pub struct Finding {
